@@ -9,6 +9,10 @@
        integer result ((a mod m) op (b mod m)) mod m = (a op b) mod m
      Int.SetModSymmetric(x,m): x mod m if -(x mod m) mod m > x mod m, else minus that   (0 gets sign bit 1: "-0", value 0)
      Nat.CmpMod, Nat.IsUnit(m) = (gcd(x,m) == 1)  (0 is not a unit: Coprime(0,m) runs the gcd and finds m)
+   Checked against Go (scratch program, 1830 cases, keys 11*13 .. 128-bit N, both prime orders): all operations below agree.
+   NOT modelled: saferith's Exp with an EVEN modulus (expEven never initialises its accumulator: a fresh receiver
+   yields 0, e.g. 7^143 mod 120 = 0); no path of /repo reaches it (N, N^2, p, q, p^2, q^2 are odd); [powmod] is the
+   mathematical value for every modulus.  ModInverse with the even modulus phi (DecWithRandomness) does agree.
    Definitions only. All functions are total; numbers are Z (Go's Nat arguments are >= 0, Int arguments are signed). *)
 From Coq Require Import ZArith List Bool.
 Import ListNotations.
